@@ -308,6 +308,8 @@ pub fn ginfo_line(g: &FnGraph<TestFn>) -> String {
         let yaml = serde_yaml_ng::to_string(&gi).unwrap();
         let back: GraphInfo<usize> = serde_yaml_ng::from_str(&yaml).unwrap();
         let roundtrip = back == gi;
+        let back_iter: Vec<usize> = back.iter().copied().collect();
+        let back_iter_rev: Vec<usize> = back.iter_rev().copied().collect();
         let back_nodes: Vec<usize> = back.graph.raw_nodes().iter().map(|n| n.weight).collect();
         let back_edges: Vec<(usize, usize, Edge)> =
             back.graph.raw_edges().iter().map(|e| (e.source().index(), e.target().index(), e.weight)).collect();
@@ -335,7 +337,7 @@ pub fn ginfo_line(g: &FnGraph<TestFn>) -> String {
             })
             .unwrap_or_default();
         format!(
-            "ginfo nodes={} edges={} iter={} iter_rev={} yaml_nodes={} yaml_edges={} roundtrip_eq={} back_nodes={} back_edges={}",
+            "ginfo nodes={} edges={} iter={} iter_rev={} yaml_nodes={} yaml_edges={} roundtrip_eq={} back_nodes={} back_edges={} back_iter={} back_iter_rev={}",
             csv(&nodes),
             edges_str(&edges),
             csv(&iter),
@@ -344,7 +346,9 @@ pub fn ginfo_line(g: &FnGraph<TestFn>) -> String {
             yedges.join(","),
             roundtrip,
             csv(&back_nodes),
-            edges_str(&back_edges)
+            edges_str(&back_edges),
+            csv(&back_iter),
+            csv(&back_iter_rev)
         )
     }));
     match r {
